@@ -28,13 +28,22 @@ Record oistate := mkOI {
   oi_pos : option opos; oi_price : option Q;
   oi_l1t : Z; oi_bid : option (Q * Q); oi_ask : option (Q * Q); oi_last : option (Z * Q) }.
 
-(** [CEngine n evs obs final frame_ok]: an engine with [n] instruments, all flat with default
-    market data; [evs] processed one by one by Engine::process; [obs] = after each event the
-    state of the instrument the event was routed to and the PositionExit output of the audit;
+(** one instrument of the engine as built by the harness, in index order: kind (0 spot,
+    1 perpetual, 2 future, 3 option), contract size, whether the settlement asset is the quote
+    asset, exchange index. Printed for the record: neither the code's position / PnL path nor the
+    model reads any of it (the documented estimate is "price move on the open quantity minus
+    pro-rata exit fees" at the instrument's price, irrespective of kind and contract size). *)
+Record oinst := mkInst { in_kind : N; in_size : Q; in_settle_quote : bool; in_exch : N }.
+Definition ninst (l : list oinst) : N := N.of_nat (length l).
+Definition spots (n : nat) : list oinst := repeat (mkInst 0 1 true 0) n.
+
+(** [CEngine insts evs obs final frame_ok]: an engine with the instruments [insts], all flat with
+    default market data; [evs] processed one by one by Engine::process; [obs] = after each event
+    the state of the instrument the event was routed to and the PositionExit output of the audit;
     [final] = all instrument states at the end; [frame_ok] = after every event every other
     instrument's state was unchanged (Rust ==). *)
 Inductive case :=
-| CEngine (n : N) (evs : list oevent) (obs : list (oistate * option oexit))
+| CEngine (insts : list oinst) (evs : list oevent) (obs : list (oistate * option oexit))
           (final : list oistate) (frame_ok : bool).
 
 (* ---- conversion to the model -------------------------------------------------------------------- *)
@@ -118,7 +127,8 @@ Fixpoint final_matches (t : tols) (tm : Q) (s : estate) (i : N) (fin : list oist
 
 Definition corr_b (c : case) : bool :=
   match c with
-  | CEngine n evs obs fin frame_ok =>
+  | CEngine insts evs obs fin frame_ok =>
+      let n := ninst insts in
       let t := tols15 evs in
       let tm := tol_mid evs in
       let r := corr_run t tm (fun _ => is0) evs obs in
@@ -258,7 +268,7 @@ Definition l1_times_wf (evs : list oevent) : bool :=
 
 Definition verdicts (c : case) : list N :=
   match c with
-  | CEngine n evs obs fin frame_ok =>
+  | CEngine insts evs obs fin frame_ok =>
       let indep := l1_times_wf evs in
       prop_run indep (tols15 evs) (if indep then 0 else tol_mid evs) (fun _ => spec0) evs obs
   end.
@@ -283,7 +293,7 @@ Definition wf_event (n : N) (e : oevent) : bool :=
   | OMarket i _ => N.ltb i n
   end.
 Definition wf_case (c : case) : bool :=
-  match c with CEngine n evs _ _ _ => forallb (wf_event n) evs end.
+  match c with CEngine insts evs _ _ _ => forallb (wf_event (ninst insts)) evs end.
 
 (** a model/implementation disagreement is reported (code 1) even when the only oracle failures
     of the case lie in the known class, so that the known finding never hides a disagreement *)
@@ -318,9 +328,9 @@ Fixpoint model_obs (s : estate) (evs : list oevent) : list (oistate * option oex
   end.
 Definition model_case (c : case) : case :=
   match c with
-  | CEngine n evs _ _ _ =>
+  | CEngine insts evs _ _ _ =>
       let r := model_obs (fun _ => is0) evs in
-      CEngine n evs (fst r) (map (fun i => oistate_of (snd r (N.of_nat i))) (seq 0 (N.to_nat n))) true
+      CEngine insts evs (fst r) (map (fun i => oistate_of (snd r (N.of_nat i))) (seq 0 (length insts))) true
   end.
 (** on model outputs every oracle failure lies in the known class (the model follows the code)
     and the model agrees with itself *)
